@@ -36,7 +36,9 @@ func (c *concCount) AddPath(pfx *bnet.Prefix, p *route.Path) error {
 	c.mu.Unlock()
 	return nil
 }
-func (c *concCount) AddPathInitialDump(pfx *bnet.Prefix, p *route.Path) error { return c.AddPath(pfx, p) }
+func (c *concCount) AddPathInitialDump(pfx *bnet.Prefix, p *route.Path) error {
+	return c.AddPath(pfx, p)
+}
 func (c *concCount) RemovePath(pfx *bnet.Prefix, p *route.Path) bool {
 	c.mu.Lock()
 	delete(c.have, pfx.String())
@@ -44,7 +46,7 @@ func (c *concCount) RemovePath(pfx *bnet.Prefix, p *route.Path) bool {
 	return true
 }
 func (c *concCount) ReplacePath(*bnet.Prefix, *route.Path, *route.Path) {}
-func (c *concCount) RefreshRoute(*bnet.Prefix, []*route.Path)          {}
+func (c *concCount) RefreshRoute(*bnet.Prefix, []*route.Path)           {}
 func (c *concCount) EndOfRIB()                                          {}
 func (c *concCount) Dispose()                                           {}
 func (c *concCount) ClientCount() uint64                                { return 0 }
@@ -53,7 +55,7 @@ func (c *concCount) Register(routingtable.RouteTableClient)             {}
 func (c *concCount) RegisterWithOptions(routingtable.RouteTableClient, routingtable.ClientOptions) {
 }
 func (c *concCount) Unregister(routingtable.RouteTableClient) {}
-func (c *concCount) RouteCount() int64                          { return 0 }
+func (c *concCount) RouteCount() int64                        { return 0 }
 func (c *concCount) UpdateNewClient(routingtable.RouteTableClient) error {
 	return nil
 }
@@ -83,7 +85,9 @@ type concMaster struct{}
 
 func (concMaster) UpdateNewClient(routingtable.RouteTableClient) error { return nil }
 
-func concPfx(a, b int) *bnet.Prefix { return bnet.NewPfx(bnet.IPv4FromOctets(10, uint8(a), uint8(b), 0), 24).Ptr() }
+func concPfx(a, b int) *bnet.Prefix {
+	return bnet.NewPfx(bnet.IPv4FromOctets(10, uint8(a), uint8(b), 0), 24).Ptr()
+}
 
 func newConcWorld() *concWorld {
 	w := &concWorld{}
